@@ -44,6 +44,17 @@ impl UnaryParser {
                         TokenType::Variable(variable)     => SmartCalcAstType::PrefixUnary(operator, Rc::new(SmartCalcAstType::Variable(variable.clone()))),
                         TokenType::Percent(percent)       => SmartCalcAstType::PrefixUnary(operator, Rc::new(SmartCalcAstType::Item(Rc::new(PercentItem(*percent))))),
                         TokenType::Money(money, currency) => SmartCalcAstType::PrefixUnary(operator, Rc::new(SmartCalcAstType::PrefixUnary(operator, Rc::new(SmartCalcAstType::Item(Rc::new(MoneyItem(*money, currency.clone()))))))),
+                        /* Sign in front of a group, for example -(2 + 3) */
+                        TokenType::Operator('(') => {
+                            return match PrimativeParser::parse_parenthesis(parser) {
+                                Ok(SmartCalcAstType::None) => {
+                                    parser.set_index(index_backup);
+                                    Err(("Unary works with number", 0, 0))
+                                },
+                                Ok(ast) => Ok(SmartCalcAstType::PrefixUnary(operator, Rc::new(ast))),
+                                Err(error) => Err(error)
+                            };
+                        },
                         _ => {
                             parser.set_index(index_backup);
                             return Err(("Unary works with number", 0, 0));
